@@ -11,6 +11,8 @@ CHECK_DEADLOCK FALSE
 HEAD = """SPECIFICATION TSpec
 CONSTANTS N = %d Inf = 16 MaxFaults = 99 Pfx = {1,2,3,4} Thresh = 100 TraceFile = "@TRACE@"
 """
+RV_HEAD = ('SPECIFICATION TSpec\nCONSTANTS Names = {"/p/a", "/p/b", "/q"} FaceIds = {901, 902, 903} Origins = {0, 65, 128} Client = 65 Dev = {} '
+           'TraceFile = "@TRACE@"\n')
 ADV_HEAD = 'SPECIFICATION TSpec\nCONSTANTS DeadInt = 30 Life = 4 Fresh = 999 Dev = {} TraceFile = "@TRACE@"\n'
 ADV_PROPS = ["T_nopanic", "T_C18a_state", "T_C18a_pub", "T_C18a_fetch", "T_C18a_data", "T_C18a_rib", "T_C18a_dead", "T_C18a_noresurrect", "T_C18a_settle"]
 INVS = {"C18": ["I_C18adv", "I_C18choice", "I_C18fix", "I_C18bound"], "C19": ["I_C19inst", "I_C19log", "I_C19seq"]}
@@ -39,7 +41,8 @@ def nontrivial(pid, ex):
             or any(r.get("ev") == "rdata" and r.get("n", 0) > 0 for r in ex)
     return any(r.get("ev") == "sync" and len(r.get("set", [])) > 0 for r in ex) or any(len(r.get("cmds", [])) > 0 for r in ex) \
         or any(r.get("ev") == "dlv" and any(len(u) > 0 for u in r.get("upd", [])) for r in ex) \
-        or any(r.get("ev") == "attempt" and not r.get("ok") for r in ex)
+        or any(r.get("ev") == "attempt" and not r.get("ok") for r in ex) \
+        or any("dvann" in r and len(r.get("cmds", [])) > 0 for r in ex)
 
 
 def run(pid, tier, replay=None):
@@ -71,6 +74,17 @@ def run(pid, tier, replay=None):
         r = V.validate_trace(wd, rows, "DVAdvTrace.tla", ADV_HEAD, [p for p in ADV_PROPS if p != "T_C18a_settle"], invariants=["I_C18a_quiet"], label="advr", timeout=600)
         if r["blocked"]:
             raise V.Machinery("advertisement-exchange trace not followable (drift): %s" % json.dumps(r["blocked"])[:1500])
+        for v in r["violations"]:
+            path = V.save_violation(pid, v["segment"], {"rule": v["rule"], "event": v["segment"][-1], "model_state": v["state"]})
+            print("VIOLATION property=%s replay=%s" % (pid, path))
+        return 1 if r["violations"] else 0
+    if replay and any("dvann" in r for r in V.read_ndjson(replay)):      # a segment of the readv stage
+        V.copy_spec("readv", wd)
+        V.run_harness(binary, "TestReadvReplay", {"VERIF_OUT": wd, "VERIF_REPLAY": os.path.abspath(replay)})
+        rows = V.read_ndjson(os.path.join(wd, "readv_replay.ndjson"))
+        r = V.validate_trace(wd, rows, "ReadvTrace.tla", RV_HEAD, [], invariants=["I_C19r_ann", "I_C19r_rib", "I_C19r_ok", "CountIsClientRoutes"], label="readvr", timeout=600)
+        if r["blocked"]:
+            raise V.Machinery("readvertise trace not followable (drift): %s" % json.dumps(r["blocked"])[:1500])
         for v in r["violations"]:
             path = V.save_violation(pid, v["segment"], {"rule": v["rule"], "event": v["segment"][-1], "model_state": v["state"]})
             print("VIOLATION property=%s replay=%s" % (pid, path))
@@ -189,6 +203,29 @@ def run(pid, tier, replay=None):
             accepted += r["accepted_execs"]
             events += r["events"]
             viols += r["violations"]
+    # ---- from a client route in the forwarder's RIB to a prefix announced by the daemon (spec/readv/Readvertise.tla)
+    if pid == "C19" and not replay:
+        V.copy_spec("readv", wd)
+        RV_MC = ('SPECIFICATION MSpec\nCONSTANTS Names = {"p", "q"} FaceIds = {1, 2} Origins = {0, 65} Client = 65 Dev = %s MaxDepth = %d\n'
+                 "VIEW MView\nCONSTRAINT MConstr\nINVARIANTS AnnIsClientRoutes CountIsClientRoutes\nCHECK_DEADLOCK FALSE\n")
+        with open(os.path.join(wd, "mc_readv.cfg"), "w") as f:
+            f.write(RV_MC % ("{}", 99))
+        mc["readv"] = V.tlc(wd, "ReadvMC.tla", "mc_readv.cfg", workers=4, timeout=900)
+        with open(os.path.join(wd, "mc_readv_neg.cfg"), "w") as f:
+            f.write(RV_MC % ('{"WithdrawAlways"}', 99))
+        neg = V.tlc(wd, "ReadvMC.tla", "mc_readv_neg.cfg", workers=2, timeout=600)
+        if neg.status != "violation":
+            raise V.Machinery("negative control of Readvertise not refuted: %s\n%s" % (neg.status, neg.out[-1500:]))
+        V.run_harness(binary, "TestReadvGen", {"VERIF_OUT": wd, "VERIF_N": 400 if th else 40, "VERIF_LEN": 30}, timeout=3000)
+        rows = V.read_ndjson(os.path.join(wd, "readv.ndjson"))
+        rv_execs = V.split_executions(rows)
+        execs_all += rv_execs
+        r = V.validate_trace(wd, rows, "ReadvTrace.tla", RV_HEAD, [], invariants=["I_C19r_ann", "I_C19r_rib", "I_C19r_ok", "CountIsClientRoutes"], label="readv", timeout=3000)
+        if r["blocked"]:
+            raise V.Machinery("readvertise trace not followable (drift): %s" % json.dumps(r["blocked"])[:1500])
+        accepted += r["accepted_execs"]
+        events += r["events"]
+        viols += r["violations"]
     if bg:
         bg.join()
     unfinished = []
